@@ -374,8 +374,11 @@ func (c *Conn) Write(b []byte) (int, error) {
 }
 
 func (c *Conn) inspectWrite(record []byte) error {
-	recType := c.writeBuf[0]
-	msgType := c.writeBuf[5]
+	recType := record[0]
+	var msgType uint8
+	if len(record) > 5 {
+		msgType = record[5]
+	}
 	if recType == 22 {
 		c.debugf("Write %s(%d) %s\n", contentType(recType), recType, handshakeMessageTypes[msgType])
 	} else {
@@ -385,7 +388,7 @@ func (c *Conn) inspectWrite(record []byte) error {
 	case recType == 23:
 		c.writePassthrough = true
 	case recType == 22 && msgType == 2: // Handshake / ServerHello
-		h, err := parseServerHello(c.writeBuf[5:])
+		h, err := parseServerHello(record[5:])
 		if err != nil {
 			return fmt.Errorf("%w: parseServerHello: %v\n", ErrDecodeError, err)
 		}
